@@ -240,11 +240,9 @@ func (en *Env) evalIdent(n *ast.Ident) *SV {
 	// current value of a local (loop clauses)
 	if en.fr != nil {
 		if _, isVar := obj.(*types.Var); isVar && obj.Parent() != nil && obj.Parent() != obj.Pkg().Scope() {
-			for _, l := range en.fr.fn.Locals {
-				if l.Comment == n.Name {
-					if sv, ok := en.fr.vals[l]; ok && sv.P != nil {
-						return TV(en.load(sv.P))
-					}
+			if l := localByName(en.fr.fn, n.Name); l != nil {
+				if sv, ok := en.fr.vals[l]; ok && sv.P != nil {
+					return TV(en.load(sv.P))
 				}
 			}
 		}
@@ -758,6 +756,17 @@ func (en *Env) evalOverlayCall(fobj *types.Func, decl *ast.FuncDecl, n *ast.Call
 		return TV(x.reinterpret(st, en.evalT(n.Args[0]), types.Typ[types.Float64], types.Typ[types.Uint64]))
 	case "isnan":
 		return TV(App("fp.isNaN", SBool, en.evalT(n.Args[0])))
+	case "fsame":
+		return TV(Eq(en.evalT(n.Args[0]), en.evalT(n.Args[1])))
+	case "fst2", "snd2":
+		v := en.eval(n.Args[0])
+		if len(v.Tuple) != 2 {
+			unsupportedf("%s needs a two-valued call", name)
+		}
+		if name == "fst2" {
+			return v.Tuple[0]
+		}
+		return v.Tuple[1]
 	case "feq":
 		return TV(App("fp.eq", SBool, en.evalT(n.Args[0]), en.evalT(n.Args[1])))
 	}
@@ -827,6 +836,13 @@ func (en *Env) pureCall(fn *ssa.Function, args []*SV) *SV {
 	x.runFunction(fn, st, args, nil, en.depth+1, true, func(st2 *State, res *SV) {
 		outs = append(outs, outcome{pc: append([]*Term(nil), st2.pc[base:]...), res: res})
 	})
+	if len(outs) == 1 && en.st != nil && len(en.bound) == 0 {
+		for _, a := range outs[0].pc {
+			if !strings.Contains(a.String(), "!q") {
+				en.st.assume(a)
+			}
+		}
+	}
 	if len(outs) == 0 {
 		// always panics: unconstrained
 		return x.freshOfType(&State{heap: en.heap, known: map[string]bool{}}, "undef."+fn.Name(), fn.Signature.Results())
@@ -1011,3 +1027,26 @@ func (e *Engine) staticLocComps(ex ast.Expr, info *types.Info, add func(string))
 }
 
 var _ = strings.TrimSpace
+
+// localByName resolves name or name__N (N-th declaration of that name) to the
+// SSA local cell.
+func localByName(fn *ssa.Function, name string) *ssa.Alloc {
+	want := 1
+	base := name
+	if i := strings.LastIndex(name, "__"); i > 0 {
+		var n int
+		if _, err := fmt.Sscanf(name[i+2:], "%d", &n); err == nil && n >= 2 {
+			want, base = n, name[:i]
+		}
+	}
+	k := 0
+	for _, l := range fn.Locals {
+		if l.Comment == base {
+			k++
+			if k == want {
+				return l
+			}
+		}
+	}
+	return nil
+}
